@@ -16,14 +16,14 @@ CLAIMS = {
               'Theorems proved so far: group/location action = the single-light action on each member in name order (all '
               'populations, all registers); members of a group are exactly the lights reporting it; operands joined by `and` '
               'share one delay. Forward simulation (Lang/Simulation.v, Simulation2.v, Simulation3.v, SimulationTop.v) is proved for every program made of register '
-              'settings, unit switches, assignments, constants, print / println, wait, `time at`, `get`, `set default`, `set L zone a b`, `set L row a b column c d`, set / on / off of all lights or lists of lights, groups and '
+              'settings, unit switches, assignments, constants, print / println, wait, `time at`, `get`, `set default`, `set L zone a b`, `set L row a b` / `column c d`, set / on / off of all lights or lists of lights, groups and '
               'locations named by strings, macros or variables, if / else, begin-end blocks, `repeat while`, counted `repeat n`, `repeat with v from a to b`, `repeat n with v from a to b`, `repeat n with v cycle`, `repeat all / group / location as x [with ...]`, `repeat in ... and ... as x [with ...]` and endless `repeat` loops, `break`, routine definitions at the top level, calls `f a b ...` of routines (arguments ordinary values; routines may call each other and themselves, to any depth), `return`, and the value of a call where a statement takes it directly (`assign y [f ..]`, `hue [f ..]`, `print [f ..]`, `return [f ..]`, the routine ending in a return on every path; built-in functions too; also inside an expression: `return {n * [fact {n - 1}]}`, as an argument of another call, as the condition of if / while or the count of repeat), `printf` with ordinary values, nested to any depth -- values any ordinary rvalue or call-free numeric expression of any size -- and every population: WHENEVER the reference '
               'semantics runs the source to its end with events evs, the code of the compiler model, loaded and run on the machine model '
               'from the initial state, finishes with exactly evs (and statement by statement for code anywhere in an image, inside any enclosing loops). For '
-              'calls in the bounds of indexed loops / operands / printf arguments, routines defined inside branches, single-clause matrix commands and matrix blocks the agreement of reference semantics, compiler, loader and machine models with each '
+              'calls in the bounds of indexed loops / operands / printf arguments, routines defined inside branches and matrix blocks the agreement of reference semantics, compiler, loader and machine models with each '
               'other and with the implementation is established per run by the oracle and correspondence comparisons, i.e. by testing, over '
               '~400 (quick) / ~6000 (thorough) scripts.'),
-        note=COMMON_NOTE + 'Partial: the simulation theorem covers programs with if / else, `repeat while`, `repeat n`, endless `repeat`, the three loop forms with an index variable, the loops over all lights / groups / locations, `break`, routines (recursive ones too) called as statements or for a value a statement takes directly, and `return` (calls in bounds of indexed loops, operands and printf arguments, nested definitions, single-clause matrix commands and matrix blocks excluded) only -- the share of the generated scripts inside this fragment is in the evidence (`in_theorem_fragment`); arithmetic outside the modelled range (libm, rgb, ints beyond 2^53 with floats) is skipped and counted; device layer = repository fakes.',
+        note=COMMON_NOTE + 'Partial: the simulation theorem covers programs with if / else, `repeat while`, `repeat n`, endless `repeat`, the three loop forms with an index variable, the loops over all lights / groups / locations, `break`, routines (recursive ones too) called as statements or for a value a statement takes directly, and `return` (calls in bounds of indexed loops, operands and printf arguments, nested definitions and matrix blocks excluded) only -- the share of the generated scripts inside this fragment is in the evidence (`in_theorem_fragment`); arithmetic outside the modelled range (libm, rgb, ints beyond 2^53 with floats) is skipped and counted; device layer = repository fakes.',
         technique='Coq reference semantics + machine/compiler models; lemmas by induction; oracle and correspondence by vm_compute evaluation of generated cases',
         design='DESIGN.md 7 C01'),
     'C05': dict(
